@@ -355,3 +355,37 @@ Theorem C06_code_GA_get_new_individ_g : forall
   = new_individ sel tour q cx proba const pop fs fr ds.
 Proof. exact code_GA_get_new_individ_g. Qed.
 Print Assumptions C06_code_GA_get_new_individ_g.
+
+(* PDPGA._get_new_individ_g: as GeneticAlgorithm's, with ONE extra draw between selection and crossover — the index of the selected
+   parent whose raw fitness is remembered (appended to _previous_fitness_i: the appended value is part of the translated result) *)
+Theorem C06_code_PDPGA_get_new_individ_g : forall
+    (selpy : list Q -> list Q -> Z -> Z -> M (list Z)) (sel : list Q -> list Q -> nat -> nat -> M (list Z)) (tour q : nat)
+    (cxpy cx : list (list Z) -> list Q -> list Q -> M (list Z)) (mupy : list Z -> Q -> M (list Z))
+    (proba : Q) (const : bool) fs fr fit pop ds,
+  selpy fs fr (Z.of_nat tour) (Z.of_nat q) ds = sel fs fr tour q ds ->
+  (forall r ds', sel fs fr tour q ds = Some (r, ds') -> Forall (fun v => (0 <= v)%Z) r) ->
+  (forall a b c ds', cxpy a b c ds' = cx a b c ds') ->
+  (forall c p ds', mupy c p ds' = flip_mutation c p ds') ->
+  py_PDPGA_get_new_individ_g selpy (Z.of_nat tour) cxpy (Z.of_nat q) mupy proba const fs fr fit pop ds
+  = bind (sel fs fr tour q) (fun r =>
+      bind (popI (Z.of_nat (length r))) (fun i =>
+        bind (cx (gather [] pop r) (gather 0%Q fs r) (gather 0%Q fr r)) (fun c =>
+          bind (flip_mutation c (mutation_rate proba const (length c))) (fun o =>
+            ret (getQ (gather 0%Q fit r) i, o))))) ds.
+Proof. exact code_PDPGA_get_new_individ_g. Qed.
+Print Assumptions C06_code_PDPGA_get_new_individ_g.
+
+Theorem C06_code_PDPGA_offspring : forall
+    (selpy : list Q -> list Q -> Z -> Z -> M (list Z)) (sel : list Q -> list Q -> nat -> nat -> M (list Z)) (tour q : nat)
+    (cxpy cx : list (list Z) -> list Q -> list Q -> M (list Z)) (mupy : list Z -> Q -> M (list Z))
+    (proba : Q) (const : bool) fs fr fit pop ds,
+  selpy fs fr (Z.of_nat tour) (Z.of_nat q) ds = sel fs fr tour q ds ->
+  (forall r ds', sel fs fr tour q ds = Some (r, ds') -> Forall (fun v => (0 <= v)%Z) r) ->
+  (forall a b c ds', cxpy a b c ds' = cx a b c ds') ->
+  (forall c p ds', mupy c p ds' = flip_mutation c p ds') ->
+  match py_PDPGA_get_new_individ_g selpy (Z.of_nat tour) cxpy (Z.of_nat q) mupy proba const fs fr fit pop ds with
+  | Some ((_, child), ds') => new_individ_pdp sel tour q cx proba const pop fs fr ds = Some (child, ds')
+  | None => new_individ_pdp sel tour q cx proba const pop fs fr ds = None
+  end.
+Proof. exact code_PDPGA_offspring. Qed.
+Print Assumptions C06_code_PDPGA_offspring.
